@@ -795,6 +795,9 @@ func (e *env) attestationReplay() bool {
 }
 
 func run(b *harness.B) {
+	if b.Batch == 0 {
+		polyglot(b)
+	}
 	nNets := b.Pick(6, 10)
 	blocks := b.Pick(200, 500)
 	for i := 0; i < nNets; i++ {
